@@ -46,9 +46,10 @@ PROPS = {
     "C04": dict(
         bins={"main": dict(tc="gcc", src="prop_C04.cpp", variants=["plain"])},
         parts=[
-            dict(name="gp", workers={Q: 10, T: 10}, cases={Q: 5000, T: 60000}),
-            dict(name="rect", workers={Q: 4, T: 4}, cases={Q: 10000, T: 120000}),
+            dict(name="gp", workers={Q: 6, T: 6}, cases={Q: 8000, T: 100000}),
+            dict(name="rect", workers={Q: 2, T: 2}, cases={Q: 15000, T: 240000}),
             dict(name="rectdistinct", workers={Q: 2, T: 2}, cases={Q: 10000, T: 120000}),
+            dict(name="rectplain", workers={Q: 6, T: 6}, cases={Q: 20000, T: 400000}),
         ],
         rule=("cases = (gp) general-position path sets, 60% nesting-heavy (stacks of 3-7 nested rings of alternating or "
               "equal orientation, second stacks, nested/random clips), 25% with open subject polylines; (rect) rectilinear "
